@@ -148,20 +148,12 @@ func (st *StateTable) Get(SrcIP, DestIP net.IP, SrcPort, DestPort uint16) *State
 			continue
 		}
 
-		if state.SrcPort != SrcPort && state.DestPort != SrcPort {
-			continue
-		}
-
-		if state.DestPort != DestPort && state.SrcPort != DestPort {
-			continue
-		}
-
-		// comparing ipv6 with ipv4 now
-		if !state.SrcIP.Equal(SrcIP) && !state.DestIP.Equal(SrcIP) {
-			continue
-		}
-
-		if !state.DestIP.Equal(DestIP) && !state.SrcIP.Equal(DestIP) {
+		// the segment's 4-tuple must be the connection's, in either direction
+		if state.SrcPort == SrcPort && state.DestPort == DestPort &&
+			state.SrcIP.Equal(SrcIP) && state.DestIP.Equal(DestIP) {
+		} else if state.SrcPort == DestPort && state.DestPort == SrcPort &&
+			state.SrcIP.Equal(DestIP) && state.DestIP.Equal(SrcIP) {
+		} else {
 			continue
 		}
 
